@@ -4,12 +4,14 @@ open CGV CGV.Oracle
 /-! Line-protocol driver for C13 (see harness/c13/main.go for the op grammar). Stateful: `reset` op. -/
 
 structure D where
+  hasUpd : Bool := false        -- the world was created with the background updater running
   live : Bool := false          -- false until the first `reset`: ops on the oracle are `bad-op`, as in the harness
   s : St := {}
   enabled : Bool := true
   ids : List Nat := []          -- client threads in start order
   flights : List Nat := []      -- flight threads in start order
   nextFlight : Nat := 1000
+  upds : List Nat := []         -- updater ticks in start order (ids from 2000)
   hist : List (Option Nat × Nat) := []   -- (low-resolution ts, PD maximum) observed after each op, newest first
   deriving Inhabited
 
@@ -23,9 +25,14 @@ def terminal (t : Thread) : Bool :=
 
 /-- steps a goroutine takes without the harness: everything except waiting for PD, for the response
     (released by `arrive`) and for a flight -/
+def terminalUpd (t : Thread) : Bool :=
+  match t.pc with
+  | .gDone | .uFin => true
+  | _ => false
+
 def autoRunnable (t : Thread) : Bool :=
   match t.pc with
-  | .gCall | .gArrived | .gStoreNew | .gLoop | .gLoaded | .gCas | .vCheck | .vJoin | .vGot => true
+  | .uRange | .gCall | .gArrived | .gStoreNew | .gLoop | .gLoaded | .gCas | .vCheck | .vJoin | .vGot => true
   | .gDone => t.isFlight
   | _ => false
 
@@ -33,7 +40,7 @@ def autoRunnable (t : Thread) : Bool :=
 def settle : Nat → D → D
   | 0, d => d
   | fuel + 1, d =>
-    match (d.ids ++ d.flights).find? (fun i => autoRunnable (d.s.thr i)) with
+    match (d.ids ++ d.flights ++ d.upds).find? (fun i => autoRunnable (d.s.thr i)) with
     | none => d
     | some i =>
       let startsFlight := (d.s.thr i).pc == .vJoin && d.s.flight.isNone
@@ -69,6 +76,7 @@ def outcome (before after : D) : String :=
 
 def who (d : D) (w : String) (pc : PC) : Option Nat :=
   if w == "f" then d.flights.find? fun f => (d.s.thr f).pc == pc
+  else if w == "u" then d.upds.find? fun f => (d.s.thr f).pc == pc
   else match w.toNat? with
     | some i => if d.ids.contains i && (d.s.thr i).pc == pc then some i else none
     | none => none
@@ -84,7 +92,7 @@ def histOk : List (Option Nat × Nat) → Bool
     (match l with | some v => v ≤ pd | none => true) && decide (optLe l' l) && histOk ((l', pd') :: rest)
 
 def checkAll (d : D) : String :=
-  let all := d.ids ++ d.flights
+  let all := d.ids ++ d.flights ++ d.upds
   if !histOk d.hist then "FAIL lowres"
   else if (allPairs all).any (fun (a, b) =>
       let ta := d.s.thr a; let tb := d.s.thr b
@@ -172,23 +180,26 @@ def doGet (d : D) (t : String) : D × String :=
       (record d1, "pending")
   | none => (d, "bad-op")
 
+def doReset (d : D) (mode pd0 en : String) (upd : Bool) : D × String :=
+  match pd0.toNat?, (mode == "empty" || mode == "seeded") with
+  | some pd0, true =>
+    let d0 : D := { live := true, hasUpd := upd, s := init pd0, enabled := en == "1" }
+    if mode == "seeded" then
+      -- NewPdOracle performs one GetTimestamp, answered at once with pd0 + 1
+      let s1 := [Act.startGet hiddenId, .run hiddenId 0, .pdIssue hiddenId 0, .run hiddenId 0].foldl step d0.s
+      let d1 := ({ d0 with s := s1, flights := [hiddenId] }).settled
+      (record { d1 with flights := [] }, "ok")
+    else (record d0, "ok")
+  | _, _ => (d, "bad-op")
+
 def needsOracle (op : String) : Bool :=
-  ["get", "aget", "val", "issue", "arrive", "low", "check", "isexp", "until", "p-exp"].contains op
+  ["get", "aget", "val", "issue", "arrive", "tick", "low", "check", "isexp", "until", "p-exp"].contains op
 
 def step13' (d : D) (line : String) : D × String :=
   if !d.live && needsOracle ((words line).headD "") then (d, "bad-op") else
   match words line with
-  | ["reset", mode, pd0, en] =>
-    match pd0.toNat?, (mode == "empty" || mode == "seeded") with
-    | some pd0, true =>
-      let d0 : D := { live := true, s := init pd0, enabled := en == "1" }
-      if mode == "seeded" then
-        -- NewPdOracle performs one GetTimestamp, answered at once with pd0 + 1
-        let s1 := [Act.startGet hiddenId, .run hiddenId 0, .pdIssue hiddenId 0, .run hiddenId 0].foldl step d0.s
-        let d1 := ({ d0 with s := s1, flights := [hiddenId] }).settled
-        (record { d1 with flights := [] }, "ok")
-      else (record d0, "ok")
-    | _, _ => (d, "bad-op")
+  | ["reset", mode, pd0, en, upd] => doReset d mode pd0 en (upd == "1")
+  | ["reset", mode, pd0, en] => doReset d mode pd0 en false
   | ["get", t] => doGet d t
   | ["aget", t] => doGet d t
   | ["arrive", t] =>
@@ -216,6 +227,13 @@ def step13' (d : D) (line : String) : D × String :=
       let s1 := step d.s (.pdIssue i inc)
       (record { d with s := s1 }, toString s1.pdLast)
     | _, _ => (d, "bad-op")
+  | ["tick"] =>
+    -- one tick of the background updater; refused while the previous one is still on its way
+    if !d.hasUpd || d.upds.any (fun u => !terminalUpd (d.s.thr u)) then (d, "bad-op")
+    else
+      let u := 2000 + d.upds.length
+      let d1 := ({ d with s := step d.s (.startUpd u), upds := d.upds ++ [u] }).settled
+      (record d1, if (d1.s.thr u).pc == .gWait then "upd pending" else "upd idle")
   | ["low"] => (d, lowStr d.s)
   | ["check"] => (d, checkAll d)
   | ["isexp", scope, lock, ttl] =>
@@ -286,7 +304,7 @@ def step13' (d : D) (line : String) : D × String :=
 /-- as in the harness: after every op that lets the oracle move the property oracle is evaluated on the whole history -/
 def step13 (d : D) (line : String) : D × String :=
   let (d', out) := step13' d line
-  if ["get", "aget", "val", "issue", "arrive"].contains ((words line).headD "") && d'.live && out != "bad-op" then
+  if ["get", "aget", "val", "issue", "arrive", "tick"].contains ((words line).headD "") && d'.live && out != "bad-op" then
     let c := checkAll d'
     if c != "ok" then (d', c ++ " | " ++ out) else (d', out)
   else (d', out)
